@@ -157,6 +157,51 @@ def tests_and_compares(fn: ast.AST) -> tuple[set[str], set[str]]:
 
 
 shapes: dict[str, dict[str, list[str]]] = {}
+_SIGS: dict[str, list[str]] = {}
+
+
+def signatures(trees: list[ast.Module]) -> dict[str, list[str]]:
+    """name -> positional-or-keyword parameters (without self / cls) of package functions with a unique name."""
+    seen: dict[str, list[list[str]]] = {}
+    for tree in trees:
+        for n in ast.walk(tree):
+            if isinstance(n, (ast.FunctionDef, ast.AsyncFunctionDef)):
+                if n.args.vararg or n.args.posonlyargs:
+                    seen.setdefault(n.name, []).append(['*'])
+                    continue
+                ps = [a.arg for a in n.args.args]
+                if ps[:1] in (['self'], ['cls']):
+                    ps = ps[1:]
+                seen.setdefault(n.name, []).append(ps + ['/'] + [a.arg for a in n.args.kwonlyargs])
+    return {k: v[0] for k, v in seen.items() if len(v) == 1 and v[0] != ['*'] and not k.startswith('__')}
+
+
+def set_signatures(trees: list[ast.Module]) -> None:
+    _SIGS.clear()
+    _SIGS.update(signatures(trees))
+
+
+def _callee(n: ast.Call) -> str | None:
+    if isinstance(n.func, ast.Attribute):
+        if isinstance(n.func.value, ast.Call) and isinstance(n.func.value.func, ast.Name) and n.func.value.func.id == 'super':
+            return None
+        return n.func.attr
+    return n.func.id if isinstance(n.func, ast.Name) else None
+
+
+def call_styles(fn: ast.AST, sigs: dict[str, list[str]]) -> dict[str, list]:
+    """callee name -> [number of positional arguments, keyword names] when every call of it in fn uses that style."""
+    out: dict[str, list] = {}
+    bad: set[str] = set()
+    for n in _own(fn):
+        if isinstance(n, ast.Call):
+            nm = _callee(n)
+            if nm in sigs and not any(isinstance(a, ast.Starred) for a in n.args) and not any(k.arg is None for k in n.keywords):
+                st = [len(n.args), [k.arg for k in n.keywords]]
+                if nm in out and out[nm] != st:
+                    bad.add(nm)
+                out[nm] = st
+    return {k: v for k, v in out.items() if k not in bad}
 
 
 def body_digest(fn: ast.AST) -> str:
@@ -225,6 +270,8 @@ def build(root: str) -> dict[str, list[list[str]]]:
     out: dict[str, list[list[str]]] = {}
     shapes.clear()
     pkg = os.path.join(root, 'kfac')
+    import glob
+    sigs = signatures([ast.parse(open(f, encoding='utf-8').read()) for f in sorted(glob.glob(os.path.join(pkg, '**', '*.py'), recursive=True))])
     for dirpath, dirnames, files in os.walk(pkg):
         dirnames[:] = sorted(d for d in dirnames if d != '__pycache__')
         for fn in sorted(files):
@@ -241,6 +288,12 @@ def build(root: str) -> dict[str, list[list[str]]]:
                     out[q] = [[n, s] for n, s in b]
                 if node.name.startswith('_') and not node.name.startswith('__') and '<locals>' not in q:
                     shapes.setdefault('private', {})[q] = body_digest(node)
+                augs = sorted({f'{_u(n.target)} {type(n.op).__name__}' for n in _own(node) if isinstance(n, ast.AugAssign)})
+                if augs:
+                    shapes.setdefault('augs', {})[q] = augs
+                cs = call_styles(node, sigs)
+                if cs:
+                    shapes.setdefault('calls', {})[q] = cs
                 t, c = tests_and_compares(node)
                 if t:
                     shapes.setdefault('tests', {})[q] = sorted(t)
@@ -260,10 +313,57 @@ def table() -> dict[str, list[list[str]]]:
             with open(KNOWN) as fh:
                 d = json.load(fh)
                 _TABLE = d['functions']
-                _SHAPES = {'tests': d.get('tests', {}), 'compares': d.get('compares', {}), 'private': d.get('private', {})}
+                _SHAPES = {'tests': d.get('tests', {}), 'compares': d.get('compares', {}), 'private': d.get('private', {}), 'calls': d.get('calls', {}), 'augs': d.get('augs', {})}
         except FileNotFoundError:
             _TABLE = {}
     return _TABLE
+
+
+def _sim(a: str, b: str) -> float:
+    if a == b:
+        return 1.0
+    ka, kb = a.split(':', 1)[0], b.split(':', 1)[0]
+    if ka.split('[')[0] != kb.split('[')[0]:
+        return 0.0
+    r = difflib.SequenceMatcher(None, a, b, autojunk=False).ratio()
+    return r if r >= 0.55 else 0.0
+
+
+def _align(known: list[str], cur: list[str]) -> list[tuple[int, int]]:
+    """Order-preserving pairing of binding signatures maximising total similarity (gaps allowed)."""
+    n, m = len(known), len(cur)
+    sc = [[0.0] * (m + 1) for _ in range(n + 1)]
+    for i in range(n - 1, -1, -1):
+        for j in range(m - 1, -1, -1):
+            best = max(sc[i + 1][j], sc[i][j + 1])
+            w = _sim(known[i], cur[j])
+            if w > 0:
+                best = max(best, w + sc[i + 1][j + 1])
+            sc[i][j] = best
+    out = []
+    i = j = 0
+    while i < n and j < m:
+        w = _sim(known[i], cur[j])
+        if w > 0 and abs(sc[i][j] - (w + sc[i + 1][j + 1])) < 1e-9:
+            out.append((i, j))
+            i += 1
+            j += 1
+        elif sc[i + 1][j] >= sc[i][j + 1]:
+            i += 1
+        else:
+            j += 1
+    # gaps with the same number of leftover bindings of the same kinds on both sides are paired in order
+    # (the first binding of a local moved, e.g. because an if/else was inverted)
+    full: list[tuple[int, int]] = []
+    pa = pb = 0
+    for a, b in out + [(n, m)]:
+        ga, gb = list(range(pa, a)), list(range(pb, b))
+        if ga and len(ga) == len(gb) and all(known[x].split(':', 1)[0].split('[')[0] == cur[y].split(':', 1)[0].split('[')[0] for x, y in zip(ga, gb)):
+            full += list(zip(ga, gb))
+        if a < n:
+            full.append((a, b))
+        pa, pb = a + 1, b + 1
+    return full
 
 
 class _Rename(ast.NodeTransformer):
@@ -320,18 +420,8 @@ def restore(tree: ast.Module, modname: str, log: list[str]) -> None:
         known_names = {k[0] for k in known}
         cur_names = {n for n, _s in cur}
         all_names = {x.id for x in ast.walk(node) if isinstance(x, ast.Name)} | _params(node)
-        sm = difflib.SequenceMatcher(None, [k[1] for k in known], [s for _n, s in cur], autojunk=False)
         mapping: dict[str, str] = {}
-        pairs: list[tuple[int, int]] = []
-        pa = pb = 0
-        for a, b, size in sm.get_matching_blocks():
-            # the gap before this block: bindings whose defining expression changed too; paired in order when the
-            # binding kinds agree (a capture-free renaming is behaviour-preserving whatever it is paired with)
-            ga, gb = list(range(pa, a)), list(range(pb, b))
-            if ga and len(ga) == len(gb) and all(known[x][1].split(':', 1)[0] == cur[y][1].split(':', 1)[0] for x, y in zip(ga, gb)):
-                pairs += list(zip(ga, gb))
-            pairs += [(a + i, b + i) for i in range(size)]
-            pa, pb = a + size, b + size
+        pairs = _align([k[1] for k in known], [s_ for _n, s_ in cur])
         for ai, bi in pairs:
             kn, cn = known[ai][0], cur[bi][0]
             if kn == cn:
@@ -435,8 +525,64 @@ def _inline_new_temps(q: str, fn: ast.AST, known_names: set[str], log: list[str]
         log.append(f'{q}: new single-use temporaries {done} substituted into the statement that reads them')
 
 
+def _restore_call_styles(q: str, node: ast.AST, log: list[str]) -> None:
+    """N9: positional / keyword style of calls to package functions, as recorded for the inventory function."""
+    rec = _SHAPES.get('calls', {}).get(q)
+    if not rec or not _SIGS:
+        return
+    n_fix = 0
+    for n in _own(node):
+        if not isinstance(n, ast.Call):
+            continue
+        nm = _callee(n)
+        if nm not in rec or nm not in _SIGS or any(isinstance(a, ast.Starred) for a in n.args) or any(k.arg is None for k in n.keywords):
+            continue
+        npos, kws = rec[nm]
+        if [len(n.args), [k.arg for k in n.keywords]] == [npos, kws]:
+            continue
+        full = _SIGS[nm]
+        ps = full[:full.index('/')] if '/' in full else full
+        names = [x for x in full if x != '/']
+        if len(n.args) > len(ps) or any(k.arg not in names for k in n.keywords) or npos > len(ps):
+            continue
+        bound: dict[str, ast.expr] = {ps[i]: a for i, a in enumerate(n.args)}
+        if any(k.arg in bound for k in n.keywords):
+            continue
+        bound.update({k.arg: k.value for k in n.keywords})
+        if any(p_ not in bound for p_ in ps[:npos]) or sorted(bound) != sorted(set(ps[:npos]) | set(kws)):
+            continue       # a different set of arguments: not a mere change of style
+        n.args = [bound[p_] for p_ in ps[:npos]]
+        n.keywords = [ast.keyword(arg=k_, value=bound[k_]) for k_ in kws]
+        n_fix += 1
+    if n_fix:
+        log.append(f'{q}: {n_fix} call(s) restored to the inventory argument style')
+
+
+def _restore_augs(q: str, node: ast.AST, log: list[str]) -> None:
+    """N10: `x = x op e` -> `x op= e` where the inventory function updates x that way (Python numbers there;
+    tensors that the inventory rebinds with `x = x + e` are left alone: `+=` would be an in-place update)."""
+    rec = set(_SHAPES.get('augs', {}).get(q, []))
+    if not rec:
+        return
+    n_fix = 0
+    for owner in [node] + [n for n in _own(node) if not isinstance(n, (ast.FunctionDef, ast.AsyncFunctionDef, ast.ClassDef))]:
+        for fld in ('body', 'orelse', 'finalbody'):
+            blk = getattr(owner, fld, None)
+            if not (isinstance(blk, list) and blk and isinstance(blk[0], ast.stmt)):
+                continue
+            for i, st in enumerate(blk):
+                if isinstance(st, ast.Assign) and len(st.targets) == 1 and isinstance(st.value, ast.BinOp) and _callfree(st.targets[0]) \
+                        and _u(st.value.left) == _u(st.targets[0]) and f'{_u(st.targets[0])} {type(st.value.op).__name__}' in rec:
+                    blk[i] = ast.copy_location(ast.AugAssign(target=st.targets[0], op=st.value.op, value=st.value.right), st)
+                    n_fix += 1
+    if n_fix:
+        log.append(f'{q}: {n_fix} update(s) `x = x op e` restored to the inventory form `x op= e`')
+
+
 def _restore_shapes(q: str, node: ast.AST, log: list[str]) -> None:
     """Orientation of ==/!= comparisons and polarity of if/else, as recorded for the inventory function."""
+    _restore_call_styles(q, node, log)
+    _restore_augs(q, node, log)
     kc = set(_SHAPES.get('compares', {}).get(q, []))
     kt = set(_SHAPES.get('tests', {}).get(q, []))
     if not kc and not kt:
@@ -490,6 +636,6 @@ if __name__ == '__main__':
     t = build(root)
     json.dump({'comment': 'locals of the inventory functions in order of first binding, with spelling-free binding signatures; '
                           'texts of branch tests and of ==/!= comparisons (kfv/localnames.py)',
-               'functions': t, 'tests': shapes.get('tests', {}), 'compares': shapes.get('compares', {}), 'private': shapes.get('private', {})},
+               'functions': t, 'tests': shapes.get('tests', {}), 'compares': shapes.get('compares', {}), 'private': shapes.get('private', {}), 'calls': shapes.get('calls', {}), 'augs': shapes.get('augs', {})},
               open(KNOWN, 'w'), indent=0, sort_keys=True)
     print(f'{len(t)} functions, {sum(len(v) for v in t.values())} locals')
